@@ -52,7 +52,17 @@ enum Op {
     ReadVar { kind: i64, idx: i64 },
     ReadCmd { tk: i64, tn: i64 },
     ReadFont,
+    /// surface items (`Item` of Model/C01.lean): a character typed in the source, a name used as a command,
+    /// `\let`=character
+    Chr { c: i64 },
+    Exec { tk: i64, tn: i64 },
+    LetChr { pre: i64, tk: i64, tn: i64, c: i64 },
 }
+
+/// The characters whose role (group delimiter or not) is decided by their current `\catcode`: `[ ] { }`.
+/// Only `[` and `]` get `\catcode` assignments (the braces are needed to write the other ops).
+const DELIMS: [i64; 4] = [91, 93, 123, 125];
+const DELIM_CATS: [i64; 4] = [1, 2, 11, 12];
 
 const KIND_NAMES: [&str; 7] = ["count", "dimen", "skip", "toks", "catcode", "mathcode", "param"];
 const DEF_NAMES: [&str; 10] =
@@ -78,6 +88,9 @@ fn enc(ops: &[Op]) -> String {
             Op::ReadVar { kind, idx } => v.extend([5, 0, kind, idx]),
             Op::ReadCmd { tk, tn } => v.extend([5, 1, tk, tn]),
             Op::ReadFont => v.extend([5, 2, 0, 0]),
+            Op::Chr { c } => v.extend([6, c]),
+            Op::Exec { tk, tn } => v.extend([7, tk, tn]),
+            Op::LetChr { pre, tk, tn, c } => v.extend([8, pre, tk, tn, c]),
         }
     }
     format!("p {}", join(&v))
@@ -121,6 +134,18 @@ fn dec(case: &str) -> Option<Vec<Op>> {
                 });
                 i += 4
             }
+            6 => {
+                ops.push(Op::Chr { c: g(i + 1)? });
+                i += 2
+            }
+            7 => {
+                ops.push(Op::Exec { tk: g(i + 1)?, tn: g(i + 2)? });
+                i += 3
+            }
+            8 => {
+                ops.push(Op::LetChr { pre: g(i + 1)?, tk: g(i + 2)?, tn: g(i + 3)?, c: g(i + 4)? });
+                i += 5
+            }
             _ => return None,
         }
     }
@@ -131,7 +156,8 @@ fn var_ok(kind: i64, idx: i64) -> bool {
     match kind {
         0..=2 => (0..32768).contains(&idx),
         3 => (0..256).contains(&idx),
-        4 | 5 => CODE_CHARS.contains(&idx),
+        4 => CODE_CHARS.contains(&idx) || idx == 91 || idx == 93,
+        5 => CODE_CHARS.contains(&idx),
         6 => (0..PARAM_NAMES.len() as i64).contains(&idx),
         _ => false,
     }
@@ -142,6 +168,7 @@ fn val_ok(kind: i64, idx: i64, val: i64) -> bool {
         0 => (-2147483647..=2147483647).contains(&val),
         1 | 2 => (-16000..=16000).contains(&val),
         3 => (-999999..=999999).contains(&val),
+        4 if idx == 91 || idx == 93 => DELIM_CATS.contains(&val),
         4 => CATCODE_VALUES.contains(&val),
         5 => (0..=32767).contains(&val),
         6 => match idx {
@@ -201,6 +228,9 @@ fn op_ok(op: &Op) -> bool {
         // kind + 10 * (1 + alias selector): read through a register alias (\count, \toks only)
         Op::ReadVar { kind, idx } => (0..=109).contains(&kind) && (kind < 10 || kind % 10 == 0 || kind % 10 == 3) && var_ok(kind % 10, idx),
         Op::ReadCmd { tk, tn } => target_ok(tk, tn),
+        Op::Chr { c } => DELIMS.contains(&c),
+        Op::Exec { tk, tn } => target_ok(tk, tn),
+        Op::LetChr { pre, tk, tn, c } => (0..=3).contains(&pre) && target_ok(tk, tn) && DELIMS.contains(&c),
     }
 }
 
@@ -377,6 +407,21 @@ fn render(ops: &[Op], annots: &[&str]) -> String {
             },
             Op::ReadCmd { tk, tn } => s.push_str(&format!("\\rd {};", target_tex(tk, tn))),
             Op::ReadFont => s.push_str("\\curfont ;"),
+            // a character as typed; what it does is up to its current category code
+            Op::Chr { c } => {
+                s.push(c as u8 as char);
+                s.push(';');
+            }
+            // a name used as a command: written when the specification says it is a character-token alias
+            // or a font-selector alias (annotation other than `S`)
+            Op::Exec { tk, tn } => {
+                if annots.get(opi).map(|a| *a != "S").unwrap_or(false) {
+                    s.push_str(&format!("{};", target_tex(tk, tn)));
+                }
+            }
+            Op::LetChr { pre, tk, tn, c } => {
+                s.push_str(&format!("{}\\let {}={}", pre_tex(pre), target_tex(tk, tn), c as u8 as char));
+            }
         }
     }
     s
@@ -404,7 +449,11 @@ fn rd_fn<S: TexlangState>(rd_token: token::Token, input: &mut texlang::vm::Expan
     let how = match input.commands_map().get_command(&cr) {
         None => How::Text("?".into()),
         Some(command::Command::Macro(_)) => How::Back(""),
-        Some(command::Command::CharacterTokenAlias(_)) => How::Back("t"),
+        // printed, not executed (it may be a brace)
+        Some(command::Command::CharacterTokenAlias(v)) => match v.char_and_cat_code() {
+            Some((c, cat)) => How::Text(format!("t{}:{}", c, cat as u8)),
+            None => How::Text("t?".into()),
+        },
         Some(command::Command::Character(_)) => How::The("c"),
         Some(command::Command::MathCharacter(_)) => How::The("M"),
         Some(command::Command::Variable(_)) => How::The("v"),
@@ -447,6 +496,8 @@ impl std::io::Write for SharedBuf {
 
 #[derive(Debug, Clone, PartialEq, Eq)]
 struct Obs {
+    /// what each segment is (for messages and signatures; filled for expected observations only)
+    classes: Vec<String>,
     /// the `;`-terminated output segments, whitespace removed
     reads: Vec<String>,
     /// "" = ran to the end; `EG`, `EP`, `E:<title>` a fatal error; `PANIC:<where>`
@@ -492,8 +543,8 @@ fn run_real(src: &str) -> Obs {
     let mut reads: Vec<String> = out.split(';').map(|s| s.chars().filter(|c| !c.is_whitespace()).collect()).collect();
     reads.pop(); // what follows the last `;` (end-of-line character, nothing)
     match r {
-        Ok((end, bit)) => Obs { reads, end, bit },
-        Err(p) => Obs { reads, end: format!("PANIC:{}", strip_msg(&p)), bit: String::new() },
+        Ok((end, bit)) => Obs { classes: vec![], reads, end, bit },
+        Err(p) => Obs { classes: vec![], reads, end: format!("PANIC:{}", strip_msg(&p)), bit: String::new() },
     }
 }
 
@@ -530,10 +581,17 @@ impl C01 {
     /// Turn the driver's output words into the expected observation.
     fn expected(&mut self, ops: &[Op], words: &str) -> Obs {
         let mut reads = vec![];
+        let mut classes = vec![];
         let mut end = String::new();
         for (op, w) in ops.iter().zip(words.split_ascii_whitespace()) {
             match w {
-                "u" => continue,
+                // a character / a written name that begins or ends a group or selects a font: an empty segment
+                "u" if matches!(op, Op::Chr { .. } | Op::Exec { .. }) => {
+                    reads.push(String::new());
+                    classes.push(target_class(op));
+                    continue;
+                }
+                "u" | "sk" => continue,
                 "EG" | "EP" => {
                     end = w.to_string();
                     break;
@@ -559,7 +617,10 @@ impl C01 {
                         "?" => "?".to_string(),
                         "m" | "M" | "F" => w.to_string(),
                         "c" => w.to_string(),
-                        "t" => format!("t{}", rest.parse::<u8>().unwrap() as char),
+                        "t" => {
+                            let code: u32 = rest.parse().unwrap();
+                            format!("t{}:{}", (code % 256) as u8 as char, code / 256)
+                        }
                         "P" => "P".to_string(),
                         "v" => {
                             // v<kind>.<idx>=<d|x>
@@ -576,11 +637,16 @@ impl C01 {
                     }
                 }
                 Op::ReadFont => w.to_string(),
+                // a typeset character: `t<char + 256 * catcode>`
+                Op::Chr { .. } | Op::Exec { .. } if w.starts_with('t') => {
+                    ((w[1..].parse::<u32>().unwrap() % 256) as u8 as char).to_string()
+                }
                 _ => format!("<unexpected word {w}>"),
             };
             reads.push(s);
+            classes.push(target_class(op));
         }
-        Obs { reads, end, bit: String::new() }
+        Obs { classes, reads, end, bit: String::new() }
     }
 }
 
@@ -589,17 +655,19 @@ fn target_class(op: &Op) -> String {
         Op::ReadVar { kind, .. } => KIND_NAMES[(kind % 10) as usize].to_string(),
         Op::ReadCmd { tk, .. } => if tk == 0 { "control sequence" } else { "active character" }.to_string(),
         Op::ReadFont => "current font".to_string(),
+        Op::Chr { .. } => "character (group delimiter or typeset, by its category code)".to_string(),
+        Op::Exec { .. } => "name used as a command (alias of a character token / font selector)".to_string(),
         _ => "?".into(),
     }
 }
 
 /// First difference between what the real code printed and what was expected.
 fn diff(ops: &[Op], real: &Obs, want: &Obs) -> Option<(String, String)> {
-    let read_ops: Vec<&Op> = ops.iter().filter(|o| matches!(o, Op::ReadVar { .. } | Op::ReadCmd { .. } | Op::ReadFont)).collect();
+    let _ = ops;
     let n = real.reads.len().min(want.reads.len());
     for i in 0..n {
         if real.reads[i] != want.reads[i] {
-            let cls = read_ops.get(i).map(|o| target_class(o)).unwrap_or_default();
+            let cls = want.classes.get(i).cloned().unwrap_or_default();
             return Some((
                 format!("wrong value read: {cls}"),
                 format!("read #{i} ({cls}): real `{}`, expected `{}`", real.reads[i], want.reads[i]),
@@ -692,6 +760,50 @@ fn tags(ops: &[Op], annots: &str, spec_words: &str, out: &mut CaseOutcome) -> bo
             _ => {}
         }
         let depth = stack.len();
+        // surface items: what they turned out to be (annotation of the driver)
+        let brace = |c: i64| c == 123 || c == 125;
+        let eff: Option<Op> = match *op {
+            Op::Chr { c } => {
+                t.insert(format!(
+                    "item:character:{}:{}",
+                    if brace(c) { "brace" } else { "bracket" },
+                    match a {
+                        "B" => "begins-group",
+                        "Z" => "ends-group",
+                        _ => "typeset",
+                    }
+                ));
+                match a {
+                    "B" => Some(Op::Begin),
+                    "Z" => Some(Op::End),
+                    _ => None,
+                }
+            }
+            Op::Exec { .. } => {
+                t.insert(format!(
+                    "item:name-as-command:{}",
+                    match a {
+                        "B" => "alias-of-begin-group-token",
+                        "Z" => "alias-of-end-group-token",
+                        "T" => "alias-of-other-character",
+                        "F" => "alias-of-font-selector",
+                        _ => "other-meaning(not written)",
+                    }
+                ));
+                match a {
+                    "B" => Some(Op::Begin),
+                    "Z" => Some(Op::End),
+                    "F" => Some(Op::Font { pre: 0, f: 0 }),
+                    _ => None,
+                }
+            }
+            Op::LetChr { pre, tk, tn, c } => {
+                t.insert(format!("item:let-to-character:{}", if brace(c) { "brace" } else { "bracket" }));
+                Some(Op::Define { pre, tk, tn, dk: 6, a: 65, b: 0 })
+            }
+            o => Some(o),
+        };
+        let Some(op) = eff.as_ref() else { continue };
         match *op {
             Op::Begin => {
                 stack.push(Default::default());
@@ -829,6 +941,7 @@ fn tags(ops: &[Op], annots: &str, spec_words: &str, out: &mut CaseOutcome) -> bo
                 };
                 t.insert(k.into());
             }
+            Op::Chr { .. } | Op::Exec { .. } | Op::LetChr { .. } => {}
         }
     }
     if let Some(d) = ann.last().and_then(|a| a.strip_prefix('D')) {
@@ -981,6 +1094,9 @@ fn random_program(r: &mut Rng) -> Vec<Op> {
         pool.vars.push(*r.pick(&[(0, 1), (0, 2), (3, 1), (0, 300), (3, 255)]));
     }
     let alias_num: u64 = if alias_mode { 4 } else { 1 }; // of 6
+    // delimiter mode: characters and names whose role as group delimiters depends on scoped state
+    let delim_mode = r.chance(1, 4);
+    let mut last_alias: Option<(i64, i64)> = None; // the last name \let to a character or a font selector
     let use_globaldefs = r.chance(1, 4);
     let use_font = r.chance(1, 2);
     let len = r.range(8, 60) as usize;
@@ -1032,6 +1148,39 @@ fn random_program(r: &mut Rng) -> Vec<Op> {
         }
     };
     while ops.len() < len {
+        if delim_mode && r.chance(1, 3) {
+            let (tk, tn) = *r.pick(&pool.cmds);
+            match r.below(10) {
+                0..=3 => {
+                    ops.push(Op::Chr { c: *r.pick(&DELIMS) });
+                    let all = r.chance(1, 2);
+                    reads_for(&pool, use_font, r, &mut ops, all);
+                }
+                4 => ops.push(Op::Assign { pre: pick_pre(r), kind: 4, idx: *r.pick(&[91, 93]), val: *r.pick(&[1, 2, 2, 1, 12, 11]) }),
+                5 => {
+                    // a name \let to a font selector, to be used as a command later
+                    ops.push(Op::Define { pre: pick_pre(r), tk, tn, dk: 8, a: r.range(0, 3), b: 0 });
+                    last_alias = Some((tk, tn));
+                }
+                6 | 7 => {
+                    ops.push(Op::LetChr { pre: pick_pre(r), tk, tn, c: *r.pick(&DELIMS) });
+                    last_alias = Some((tk, tn));
+                    if r.chance(1, 2) {
+                        ops.push(Op::ReadCmd { tk, tn });
+                    }
+                }
+                _ => {
+                    let (tk, tn) = match last_alias {
+                        Some(x) if r.chance(3, 4) => x,
+                        _ => (tk, tn),
+                    };
+                    ops.push(Op::Exec { tk, tn });
+                    let all = r.chance(1, 2);
+                    reads_for(&pool, use_font, r, &mut ops, all);
+                }
+            }
+            continue;
+        }
         let c = r.below(100);
         if c < 14 && depth < maxdepth {
             ops.push(Op::Begin);
@@ -1179,8 +1328,8 @@ impl Property for C01 {
          and active characters, font selectors, reads). Order: corpus files, built-in witnesses, exhaustive (every sequence up to length \
          4 (quick; 3 for the last 7 pairs) / 5 (thorough; 4 for the last 7 pairs) over 2 targets x 2 values x {local, global} + `{` + `}` \
          with both targets read after every op, for 13 pairs of target kinds; and every sequence up to length 5 (quick) / 6 (thorough; 7 for \
-         \\count) over 1 target x 2 values x {local, global} + `{` + `}` for 8 target kinds; every sequence up to length 5 (4) / 6 over 1 register x {direct name, alias} x {local, global} + `{` + `}` for \\count via \\countdef, \\toks via \\toksdef on an active character, \\count via \\multiply/\\advance; a `}` with no group open only as the last op), random programs (8..60 ops + reads, depth <= 8, a pool of 2-6 hot targets, \
-         20-60% of assignments \\global (1-3 times), half of the \\def/\\gdef with a random run of \\global \\long \\outer in any order, \\globaldefs assigned in a quarter of them; in half of them (alias mode) the \\count/\\toks registers of the pool get 1-2 aliases up front, more \\countdef/\\toksdef/\\let-copies during the run (local and global, redefined to other registers), and 2/3 of the assignments and many reads go through a current alias). Non-trivial: an assignment inside a group is \
+         \\count) over 1 target x 2 values x {local, global} + `{` + `}` for 8 target kinds; every sequence up to length 5 (4) / 6 over 1 register x {direct name, alias} x {local, global} + `{` + `}` for \\count via \\countdef, \\toks via \\toksdef on an active character, \\count via \\multiply/\\advance; a `}` with no group open only as the last op), surface items (every sequence up to length 4 over 12 items, thorough also length 5 over 9 of them: `{ } [ ]`, local/global \\catcode of the brackets to 1/2/12, \\let of a name to a bracket, that name used as a command; \\count1 read and locally reassigned after each); random programs (8..60 ops + reads, depth <= 8, a pool of 2-6 hot targets, \
+         20-60% of assignments \\global (1-3 times), half of the \\def/\\gdef with a random run of \\global \\long \\outer in any order, \\globaldefs assigned in a quarter of them; in half of them (alias mode) the \\count/\\toks registers of the pool get 1-2 aliases up front, more \\countdef/\\toksdef/\\let-copies during the run (local and global, redefined to other registers), and 2/3 of the assignments and many reads go through a current alias; in a quarter (delimiter mode) a third of the items are characters `{ } [ ]` typed as such, \\catcode assignments that make the brackets group delimiters or not, \\let of names to those characters, and names used as commands). Non-trivial: an assignment inside a group is \
          followed by a read."
             .into()
     }
@@ -1219,6 +1368,22 @@ impl Property for C01 {
         v.push(vec![cd(4, 5), Op::Begin, asg(0, 0, 1), asg(21, 0, 2), Op::End, Op::ReadVar { kind: 0, idx: 5 }, Op::ReadVar { kind: 10, idx: 5 }]);
         v.push(vec![cd(5, 5), Op::Begin, Op::Begin, asg(20, 3, 1), asg(1, 3, 2), Op::End, Op::ReadVar { kind: 3, idx: 5 }, Op::End, Op::ReadVar { kind: 13, idx: 5 }]);
         v.push(vec![cd(4, 5), Op::Begin, asg(30, 0, 1), asg(11, 0, 2), Op::End, Op::ReadVar { kind: 0, idx: 5 }]);
+        // surface items: `[` made a group delimiter inside a group only; `\let\ta=[` keeps the category code it
+        // saw; `]` typeset; names used as commands; a stray `}`
+        let cnt = |val| Op::Assign { pre: 0, kind: 0, idx: 1, val };
+        let cat = |pre, idx, val| Op::Assign { pre, kind: 4, idx, val };
+        let rc = Op::ReadVar { kind: 0, idx: 1 };
+        v.push(vec![
+            cnt(1), Op::Chr { c: 123 }, cat(0, 91, 1), Op::Chr { c: 91 }, cnt(2), Op::LetChr { pre: 1, tk: 0, tn: 0, c: 91 }, Op::Chr { c: 125 }, rc,
+            Op::Chr { c: 125 }, Op::Chr { c: 91 }, Op::Exec { tk: 0, tn: 0 }, cnt(3), Op::Chr { c: 93 }, Op::Chr { c: 125 }, rc,
+            Op::ReadCmd { tk: 0, tn: 0 }, Op::Chr { c: 125 }, Op::Exec { tk: 0, tn: 1 },
+        ]);
+        v.push(vec![cat(1, 91, 1), cat(0, 93, 2), cnt(1), Op::Chr { c: 91 }, cnt(2), cat(0, 93, 12), Op::Chr { c: 93 }, rc, Op::Chr { c: 125 }, rc, Op::Chr { c: 93 }, rc]);
+        v.push(vec![
+            Op::LetChr { pre: 0, tk: 1, tn: 0, c: 123 }, Op::LetChr { pre: 0, tk: 0, tn: 1, c: 125 }, cnt(1), Op::Exec { tk: 1, tn: 0 }, cnt(2),
+            Op::LetChr { pre: 0, tk: 0, tn: 1, c: 93 }, Op::Exec { tk: 0, tn: 1 }, rc, Op::Chr { c: 125 }, rc, Op::Exec { tk: 0, tn: 1 }, rc,
+        ]);
+        v.push(vec![Op::Define { pre: 0, tk: 0, tn: 2, dk: 8, a: 2, b: 0 }, Op::Chr { c: 123 }, Op::Exec { tk: 0, tn: 2 }, Op::ReadFont, Op::Chr { c: 125 }, Op::ReadFont]);
         // every kind of target once: local in a group at depth 2, global at depth 2, read at every level
         let mut kinds: Vec<GT> = vec![GT::Font];
         for (k, i) in [(0, 1), (1, 1), (2, 1), (3, 1), (4, 124), (5, 124), (6, 1), (6, 2), (6, 3), (6, 0)] {
@@ -1312,6 +1477,40 @@ impl Property for C01 {
             let def = enc(&[Op::Define { pre: 0, tk, tn, dk: if kind == 0 { 4 } else { 5 }, a: idx, b: 0 }]);
             for c in cases[before..].iter_mut() {
                 *c = format!("{} {}", def, c.strip_prefix("p ").unwrap_or(""));
+            }
+        }
+        // surface items: which characters / names open and close groups is itself scoped state.
+        // After every item: read \count1, then assign it the position (locally), so that every close shows.
+        {
+            let cat = |pre, idx, val| Op::Assign { pre, kind: 4, idx, val };
+            let alpha = vec![
+                Op::Chr { c: 123 },
+                Op::Chr { c: 125 },
+                Op::Chr { c: 91 },
+                Op::Chr { c: 93 },
+                cat(0, 91, 1),
+                cat(0, 93, 2),
+                Op::LetChr { pre: 0, tk: 0, tn: 0, c: 91 },
+                Op::LetChr { pre: 1, tk: 0, tn: 0, c: 125 },
+                Op::Exec { tk: 0, tn: 0 },
+                cat(1, 91, 1),
+                cat(0, 91, 12),
+                Op::LetChr { pre: 0, tk: 0, tn: 0, c: 123 },
+            ];
+            // all 12 items up to length 4; thorough: also length 5 over the first 9
+            for len in 1..=(if ctx.thorough { 5 } else { 4 }) {
+                let n = if len == 5 { 9 } else { alpha.len() };
+                for sq in all_seqs(n, len) {
+                    let mut p = vec![];
+                    for (k, i) in sq.into_iter().enumerate() {
+                        p.push(alpha[i]);
+                        p.push(Op::ReadVar { kind: 0, idx: 1 });
+                        p.push(Op::Assign { pre: 0, kind: 0, idx: 1, val: 1 + k as i64 });
+                    }
+                    p.push(Op::ReadCmd { tk: 0, tn: 0 });
+                    cases.push(enc(&p));
+                    self.exhaustive += 1;
+                }
             }
         }
         // random
